@@ -13,8 +13,9 @@ class Check(PropertyCheck):
     pid = "C07"
     props_module = "Properties.Properties_C07"
     extra_targets = ["Extract/ExtractDec.vo"]
-    gen_files = declib.DEC_GEN + ["ErrTab.v"]
-    trusted_base = declib.DEC_TRUSTED + [
+    gen_files = declib.DEC_GEN + ["ErrTab.v"] + ["ParseTab.v"]
+    extra_props = ["Properties.Properties_C15parse"]
+    trusted_base = declib.PARSE_TRUSTED + declib.DEC_TRUSTED + [
         "process level (exit status, stderr, output file removal, absence of hangs/signals) is observed on the real binary, "
         "not proved here: main-loop model in C16, scheduler termination in C11, memory safety in C08"]
     assumptions = ["invalid = rejected by the strict reference ref_decode (validated against libbz2)"]
